@@ -18,10 +18,10 @@ RULE = ('Cases: an ancestor with 1..3 planted insertions/deletions of length 1..
         'exactly those genotyped 1, no sample is genotyped for an allele it lacks.  Each record must match one planted indel by '
         'location (one allele string lies in the ancestor, the other in the ancestor with only that indel applied), length and '
         'carrier set; no planted indel may be reported twice.  Recall is a population statistic of the run: at least 90% of the '
-        'planted indels must be reported (inconclusive below 500 planted).  Non-trivial: >= 1 planted indel; distinct = inputs.')
+        'planted indels must be reported (inconclusive below 500 planted), over the whole run and over each of its two input populations: random indels, and indels that repeat their flank (homopolymer / tandem-unit length changes, a third of the cases).  Non-trivial: >= 1 planted indel; distinct = inputs.')
 ASSUMPTIONS = ['the sample sequences written by the generator are the ground truth',
                'recall is judged on the aggregate of a run with a minimum sample size of 500 planted indels']
-REQUIRED = {t: ['records_checked', 'planted', 'insertions', 'deletions', 'threads>1', 'multi_indel_inputs'] for t in ('quick', 'thorough')}
+REQUIRED = {t: ['records_checked', 'planted', 'planted:plain', 'planted:flank', 'insertions', 'deletions', 'threads>1', 'multi_indel_inputs'] for t in ('quick', 'thorough')}
 KS = [11, 15, 21, 31]
 
 
@@ -34,7 +34,7 @@ def plan(tier, seed, rng, scale):
     descs = []
     for i in range(n):
         descs.append({'k': KS[i % 4], 'seed': rng.getrandbits(32), 'threads': rng.choice([1, 1, 2, 3, 4]),
-                      'jitter': rng.getrandbits(16) if rng.random() < 0.25 else None})
+                      'jitter': rng.getrandbits(16) if rng.random() < 0.25 else None, 'flank': i % 3 == 2})
     return descs
 
 
@@ -50,11 +50,36 @@ def sample_unique(seqs, k1):
     return True
 
 
-def with_origins(anc, indels, which):
-    """Sample sequence with, per base, where it comes from: ancestor index, or (indel, offset) for inserted bases."""
+def shifted(anc, indel, norm):
+    """The same indel written at its leftmost ('L') or rightmost ('R') equivalent position."""
+    s, kind, ln, ins = indel
+    if kind == 'ins':
+        if norm == 'L':
+            while s > 0 and anc[s - 1] == ins[-1]:
+                ins = ins[-1] + ins[:-1]
+                s -= 1
+        else:
+            while s < len(anc) and anc[s] == ins[0]:
+                ins = ins[1:] + ins[0]
+                s += 1
+    else:
+        if norm == 'L':
+            while s > 0 and anc[s - 1] == anc[s + ln - 1]:
+                s -= 1
+        else:
+            while s + ln < len(anc) and anc[s] == anc[s + ln]:
+                s += 1
+    return (s, kind, ln, ins)
+
+
+def with_origins(anc, indels, which, norm='L'):
+    """Sample sequence with, per base, where it comes from: ancestor index, or (indel, offset) for inserted bases.
+    Indels are first written at their leftmost / rightmost equivalent position, so that an indel that repeats its flank
+    (tandem unit, homopolymer) has a well-defined alignment."""
     seq = [(c, i) for i, c in enumerate(anc)]
-    for j, (s, kind, ln, ins) in sorted(enumerate(indels), key=lambda x: -x[1][0]):
+    for j, ind in sorted(enumerate(indels), key=lambda x: -x[1][0]):
         if j in which:
+            s, kind, ln, ins = shifted(anc, ind, norm)
             if kind == 'ins':
                 seq[s:s] = [(c, ('i', j, o)) for o, c in enumerate(ins)]
             else:
@@ -62,18 +87,26 @@ def with_origins(anc, indels, which):
     return ''.join(c for c, _o in seq), [o for _c, o in seq]
 
 
-def union_unique_by_locus(tagged, k1):
-    """Every k1-mer over the union of the samples occurs at one locus only (same bases of the ancestor / of the same
-    insertion), on one strand only, and none is self-complementary (DESIGN.md section 8)."""
-    loc = {}
-    for seq, org in tagged:
+def union_unique_by_locus(genomes, k1):
+    """Every k1-mer over the union of the genomes occurs at one locus only - the same bases of the ancestor / of the same
+    insertion under the leftmost or under the rightmost placement of the indels - on one strand only, and none is
+    self-complementary (DESIGN.md section 8).  `genomes` = [(sequence, origins under L, origins under R)]."""
+    locL, locR, strand = {}, {}, {}
+    okL, okR = {}, {}
+    for seq, orgL, orgR in genomes:
         for i in range(len(seq) - k1 + 1):
             w = seq[i:i + k1]
             r = M.rc(w)
             if w == r:
                 return False
-            o = tuple(org[i:i + k1])
-            if loc.setdefault(w, ('f', o)) != ('f', o) or loc.setdefault(r, ('r', o)) != ('r', o):
+            if strand.setdefault(w, 'f') != 'f' or strand.setdefault(r, 'r') != 'r':
+                return False
+            oL, oR = tuple(orgL[i:i + k1]), tuple(orgR[i:i + k1])
+            if locL.setdefault(w, oL) != oL:
+                okL[w] = False
+            if locR.setdefault(w, oR) != oR:
+                okR[w] = False
+            if okL.get(w) is False and okR.get(w) is False:
                 return False
     return True
 
@@ -86,7 +119,7 @@ def apply_indels(anc, indels, which):
     return t
 
 
-def gen(rng, k, ns):
+def gen(rng, k, ns, flank_repeat=False):
     for _ in range(300):
         nind = rng.randint(1, 3)
         L = 8 * k + (nind - 1) * (4 * k + rng.randint(0, k)) + rng.randint(0, 2 * k)
@@ -105,20 +138,36 @@ def gen(rng, k, ns):
         for s in sites:
             ln = rng.randint(1, min(10, k - 1))
             kind = rng.choice(['ins', 'del'])
+            if flank_repeat:
+                # the indel repeats its flank: homopolymer / tandem-unit length change (still unique (k-1)-mers, checked below)
+                ln = rng.randint(1, 4)
+                unit = G.rseq(rng, ln)
+                kind = rng.choice(['ins', 'del'])
+                if kind == 'ins':
+                    anc = anc[:s] + unit + anc[s + ln:]          # one copy in the ancestor, carriers get a second one
+                else:
+                    anc = anc[:s] + unit + unit + anc[s + 2 * ln:]   # two copies in the ancestor, carriers lose one
             while True:
                 car = [rng.random() < 0.5 for _ in range(ns)]
                 if any(car) and not all(car):
                     break
-            indels.append((s, kind, ln, G.rseq(rng, ln) if kind == 'ins' else None))
+            indels.append((s, kind, ln, (anc[s:s + ln] if flank_repeat else G.rseq(rng, ln)) if kind == 'ins' else None))
             carriers.append(car)
         ss = [apply_indels(anc, indels, {j for j in range(len(indels)) if carriers[j][i]}) for i in range(ns)]
         singles = [apply_indels(anc, indels, {j}) for j in range(len(indels))]
-        tagged = [with_origins(anc, indels, {j for j in range(len(indels)) if carriers[j][i]}) for i in range(ns)]
-        tagged.append(with_origins(anc, indels, set()))
-        tagged += [with_origins(anc, indels, {j}) for j in range(len(indels))]
-        if [t[0] for t in tagged[:ns]] != ss:
+        if not sample_unique(ss + [anc] + singles, k - 1):
+            continue
+        sets_ = [{j for j in range(len(indels)) if carriers[j][i]} for i in range(ns)] + [set()] + [{j} for j in range(len(indels))]
+        genomes = []
+        for w_ in sets_:
+            sL, oL = with_origins(anc, indels, w_, 'L')
+            sR, oR = with_origins(anc, indels, w_, 'R')
+            if sL != sR:
+                raise AssertionError('generator inconsistency')
+            genomes.append((sL, oL, oR))
+        if [g_[0] for g_ in genomes[:ns]] != ss:
             raise AssertionError('generator inconsistency')
-        if sample_unique(ss + [anc] + singles, k - 1) and union_unique_by_locus(tagged, k - 1):
+        if union_unique_by_locus(genomes, k - 1):
             return anc, ss, indels, carriers, singles
     return None
 
@@ -132,7 +181,7 @@ def run_case(desc, ctx):
     k = desc['k']
     rng = random.Random(desc['seed'])
     ns = rng.randint(3, 8)
-    g = gen(rng, k, ns)
+    g = gen(rng, k, ns, desc.get('flank', False))
     if g is None:
         res.count('generator_gave_up')
         return res
@@ -164,7 +213,9 @@ def run_case(desc, ctx):
     except (OSError, ValueError, KeyError, IndexError) as e:
         res.violate('C18:unparsable', 'indel VCF unreadable: %s' % e, detail)
         return res
+    pop = 'flank' if desc.get('flank') else 'plain'
     res.count('planted', len(indels))
+    res.count('planted:' + pop, len(indels))
     res.count('insertions', sum(1 for x in indels if x[1] == 'ins'))
     res.count('deletions', sum(1 for x in indels if x[1] == 'del'))
     matched = set()
@@ -218,6 +269,7 @@ def run_case(desc, ctx):
         else:
             matched.add(m)
     res.count('reported_planted', len(matched))
+    res.count('reported_planted:' + pop, len(matched))
     res.nontrivial.append(fingerprint([k, ss]))
     if res.sample is None:
         res.sample = {'k': k, 'samples': ns, 'ancestor_length': len(anc), 'indels': indels, 'carriers': carriers, 'records': [r[:4] for r in recs]}
@@ -229,10 +281,17 @@ def finalize(tier, counters, sets):
     found = counters.get('reported_planted', 0)
     if planted < 500:
         return [], ['only %d indels planted, recall not judged' % planted]
+    out = []
     if found * 10 < planted * 9:
-        return [{'signature': 'C18:recall', 'what': 'only %d of %d planted indels reported (%.1f%% < 90%%)' % (found, planted, 100.0 * found / planted),
-                 'detail': None}], []
-    return [], []
+        out.append({'signature': 'C18:recall', 'what': 'only %d of %d planted indels reported (%.1f%% < 90%%)' % (found, planted, 100.0 * found / planted),
+                    'detail': None})
+    # the same statistic on each population of inputs (random indels; indels that repeat their flank), when large enough
+    for pop in ('plain', 'flank'):
+        pl, fo = counters.get('planted:' + pop, 0), counters.get('reported_planted:' + pop, 0)
+        if pl >= 500 and fo * 10 < pl * 9:
+            out.append({'signature': 'C18:recall:' + pop, 'what': 'only %d of %d planted %s indels reported (%.1f%% < 90%%)' % (fo, pl, pop, 100.0 * fo / pl),
+                        'detail': None})
+    return out, []
 
 
 def coverage_extra(tier, counters, sets):
